@@ -75,13 +75,14 @@ reg("C01",
 reg("C18",
     gen=lambda seed, tier: (P.gen_damage_programs(G.Rng(seed + 18), N(tier, 60, 600), big=N(tier, 0.02, 0.05)) +
                             P.gen_extraction_programs(G.Rng(seed + 181), N(tier, 60, 600)) +
-                            P.gen_symlink_chain_programs()),
+                            P.gen_symlink_chain_programs() + P.gen_missing_content_programs()),
     monitors=[lambda rr: (P.mon_symlink_chain(rr) if "chain" in rr.prog.tags else
                           P.mon_extraction(rr) if "steps" in rr.prog.tags else P.mon_checked_retrieval(rr))],
     nontrivial=lambda rr: has(rr, ("copy", "copy_hash", "hard_link", "hard_link_hash", "reflink"), ()),
     rule="as C01, judged on the extraction calls and the destination file afterwards; plus extraction SEQUENCES over "
          "pristine content that reuse destinations (the same path twice, a path that already is a hard link of the content, "
-         "a longer old file), name a destination whose parent directory does not exist, and follow a remove_hash: ok => the "
+         "a longer old file), name a destination whose parent directory does not exist, and follow a remove_hash (a fixed family does "
+         "so for EVERY entry point and API, onto a fresh destination and onto an existing file, which must stay as it was): ok => the "
          "destination holds exactly the stored bytes (and the count), missing content / parent => error and nothing created, "
          "the cache entries still read back")
 
